@@ -45,6 +45,22 @@ KEY_FIXED = 'from_context fixed scale/nbits order'
 KEY_GENSYM = 'Gensym.refresh stale hash'
 
 
+# real-valued operators of the model (coq/Backend/FPCore.v: unop / binop), named after the FPy node class
+UNOPS = ['Neg', 'Abs', 'Sqrt', 'Cbrt', 'Ceil', 'Floor', 'NearbyInt', 'RoundInt', 'Trunc', 'Acos', 'Asin', 'Atan', 'Cos',
+         'Sin', 'Tan', 'Acosh', 'Asinh', 'Atanh', 'Cosh', 'Sinh', 'Tanh', 'Exp', 'Exp2', 'Expm1', 'Log', 'Log10',
+         'Log1p', 'Log2', 'Erf', 'Erfc', 'Lgamma', 'Tgamma']
+BINOPS = ['Add', 'Sub', 'Mul', 'Div', 'Copysign', 'Fdim', 'Fmod', 'Remainder', 'Hypot', 'Atan2', 'Pow']
+# titanfp AST class -> FPy node class with the same meaning (FPBench 2.0 / C99 names; the same pairing as
+# coq/Backend/OpTables.v spec_unary / spec_binary, written here by titanfp class instead of printed name)
+FPC_UN = {'Neg': 'Neg', 'Fabs': 'Abs', 'Sqrt': 'Sqrt', 'Cbrt': 'Cbrt', 'Ceil': 'Ceil', 'Floor': 'Floor',
+          'Nearbyint': 'NearbyInt', 'Round': 'RoundInt', 'Trunc': 'Trunc', 'Acos': 'Acos', 'Asin': 'Asin', 'Atan': 'Atan',
+          'Cos': 'Cos', 'Sin': 'Sin', 'Tan': 'Tan', 'Acosh': 'Acosh', 'Asinh': 'Asinh', 'Atanh': 'Atanh', 'Cosh': 'Cosh',
+          'Sinh': 'Sinh', 'Tanh': 'Tanh', 'Exp': 'Exp', 'Exp2': 'Exp2', 'Expm1': 'Expm1', 'Log': 'Log', 'Log10': 'Log10',
+          'Log1p': 'Log1p', 'Log2': 'Log2', 'Erf': 'Erf', 'Erfc': 'Erfc', 'Lgamma': 'Lgamma', 'Tgamma': 'Tgamma'}
+FPC_BIN = {'Add': 'Add', 'Sub': 'Sub', 'Mul': 'Mul', 'Div': 'Div', 'Copysign': 'Copysign', 'Fdim': 'Fdim', 'Fmod': 'Fmod',
+           'Remainder': 'Remainder', 'Hypot': 'Hypot', 'Atan2': 'Atan2', 'Pow': 'Pow'}
+
+
 class Outside(Exception):
     """The construct is outside the subset the Coq model covers."""
 
@@ -154,12 +170,11 @@ class AstExport:
             raise Outside('round of a non-literal')
         if isinstance(e, A.Integer):
             return f'(EInt {cz(e.val)})'
-        un = {A.Neg: 'UNeg', A.Abs: 'UAbs', A.Sqrt: 'USqrt'}
-        if type(e) in un:
-            return f'(EUn {un[type(e)]} {self.expr(e.arg)})'
-        bi = {A.Add: 'BAdd', A.Sub: 'BSub', A.Mul: 'BMul', A.Div: 'BDiv'}
-        if type(e) in bi:
-            return f'(EBin {bi[type(e)]} {self.expr(e.first)} {self.expr(e.second)})'
+        # the model names its operators after the FPy node class
+        if type(e).__name__ in UNOPS:
+            return f'(EUn U{type(e).__name__} {self.expr(e.arg)})'
+        if type(e).__name__ in BINOPS:
+            return f'(EBin B{type(e).__name__} {self.expr(e.first)} {self.expr(e.second)})'
         raise Outside(f'expression {type(e).__name__}')
 
     def bexp(self, e):
@@ -320,12 +335,11 @@ class CoreExport:
             return f'(CNum {cz(e.i)})'
         if isinstance(e, fpc.Decnum):
             return f'(CLit {cs(e.value)})'
-        un = {fpc.Neg: 'UNeg', fpc.Fabs: 'UAbs', fpc.Sqrt: 'USqrt'}
-        if type(e) in un:
-            return f'(CUn {un[type(e)]} {self.expr(e.children[0])})'
-        bi = {fpc.Add: 'BAdd', fpc.Sub: 'BSub', fpc.Mul: 'BMul', fpc.Div: 'BDiv'}
-        if type(e) in bi:
-            return f'(CBin {bi[type(e)]} {self.expr(e.children[0])} {self.expr(e.children[1])})'
+        # titanfp operator class -> the model's operator (= the like-named FPy node class, FPC_UN / FPC_BIN)
+        if type(e).__name__ in FPC_UN and len(e.children) == 1:
+            return f'(CUn U{FPC_UN[type(e).__name__]} {self.expr(e.children[0])})'
+        if type(e).__name__ in FPC_BIN and len(e.children) == 2:
+            return f'(CBin B{FPC_BIN[type(e).__name__]} {self.expr(e.children[0])} {self.expr(e.children[1])})'
         cm = {fpc.LT: 'CLt', fpc.LEQ: 'CLe', fpc.GT: 'CGt', fpc.GEQ: 'CGe', fpc.EQ: 'CEq', fpc.NEQ: 'CNe'}
         if type(e) in cm:
             if len(e.children) != 2:
@@ -460,6 +474,11 @@ class ProgGen:
             op = self.r.choice(['-', 'abs', 'fp.sqrt'])
             a = self.expr(vs, depth - 1)
             return f'(-{a})' if op == '-' else (f'{op}(abs({a}))' if op == 'fp.sqrt' else f'abs({a})')
+        if k < .5:
+            # round-to-integer family (their results are exact, so they cannot overflow a format)
+            # (not nearbyint: titanfp's is wrong — the repo's own test shim replaces it; it is in the operator corpus)
+            op = self.r.choice(['fp.roundint', 'fp.floor', 'fp.ceil', 'fp.trunc'])
+            return f'{op}({self.expr(vs, depth - 1)})'
         op = self.r.choice(['+', '-', '*', '*', '/', '+'])
         return f'({self.expr(vs, depth - 1)} {op} {self.expr(vs, depth - 1)})'
 
@@ -624,7 +643,8 @@ FIXED_PROGRAMS = [
 ]
 
 ARG_POOL_HEX = ['0x1p-1', '0x1.4p+0', '-0x1.6p+1', '0x1.8p+1', '0x1.ep+2', '0x1.99999ap-4', '0x1.19999ap+0',
-                '0x1.266666p+1', '0x1.9p+6', '-0x1.333334p-2', '0x1.0624dep-10', '0x1.81cd6cp+13', '0x1p+0', '0x0p+0']
+                '0x1.266666p+1', '0x1.9p+6', '-0x1.333334p-2', '0x1.0624dep-10', '0x1.81cd6cp+13', '0x1p+0', '0x0p+0',
+                '0x1.4p+1', '-0x1.4p+1', '0x1.2p+2', '-0x1p-1', '0x1.8p+0', '-0x1.8p+0', '0x1.cp+1', '-0x0p+0']
 
 
 # ---------------------------------------------------------------------------- evaluation
@@ -726,6 +746,183 @@ def gensym_reused_a_name(core):
     return len(set(names)) < len(names)
 
 
+# ---------------------------------------------------------------------------- operator tables (data in the source)
+def operator_tables():
+    """The operator tables of backend/fpc.py and frontend/fpc.py as they are in the working tree, plus the
+    mappings that are code rather than data, observed by probing (`_compile_compareop`; the frontend's
+    handling of `-`, n-ary `and`/`or` and the comparison classes)."""
+    import titanfp.fpbench.fpcast as fpc
+    from fpy2.ast.fpyast import CompareOp
+    from fpy2.backend import fpc as B
+    from fpy2.frontend import fpc as F
+    from fpy2.utils import NamedId
+    t = {}
+    t['back_unary'] = [(k.__name__, v.name) for k, v in B._get_unary_table().items()]
+    t['back_binary'] = [(k.__name__, v.name) for k, v in B._get_binary_table().items()]
+    t['back_ternary'] = [(k.__name__, v.name) for k, v in B._get_ternary_table().items()]
+    t['back_nary'] = [(k.__name__, v.name) for k, v in B._get_nary_table().items()]
+    t['back_const'] = [(k.__name__, str(v.value)) for k, v in B._get_nullary_table().items()]
+    inst = B._FPCoreCompileInstance.__new__(B._FPCoreCompileInstance)
+    t['back_compare'] = [(op.name, inst._compile_compareop(op).name) for op in CompareOp]
+    # the frontend is keyed by titanfp's printed operator name; `-` is tested by hand before the table is read
+    conv = F._FPCore2FPy(fpc.FPCore([], fpc.Integer(0)), 'f')
+    cx = F._Ctx(env={'x': NamedId('x'), 'y': NamedId('y')})
+    x, y = fpc.Var('x'), fpc.Var('y')
+    front_un = [(k, v.__name__) for k, v in F._get_unary_table().items() if k != 'neg']
+    front_un.append((fpc.Neg.name, type(conv._visit(fpc.Neg(x), cx)).__name__))
+    t['front_unary'] = front_un
+    t['front_binary'] = [(k, v.__name__) for k, v in F._get_binary_table().items()]
+    t['front_ternary'] = [(k, v.__name__) for k, v in F._get_ternary_table().items()]
+    t['front_const'] = [(k, type(v).__name__) for k, v in F._get_constants().items()]
+    t['front_nary'] = [(c.name, type(conv._visit(c(fpc.LT(x, y), fpc.LT(y, x)), cx)).__name__) for c in (fpc.Or, fpc.And)]
+    t['front_compare'] = [(c.name, conv._visit(c(x, y), cx).ops[0].name)
+                          for c in (fpc.LT, fpc.LEQ, fpc.GEQ, fpc.GT, fpc.EQ, fpc.NEQ)]
+    return t
+
+
+def tables_theory(ck):
+    """build/C12/C12Tables.v: the tables of the working tree as Coq data, `fwd_ok` / `bwd_ok` / coverage by
+    vm_compute, and the instance of tables_roundtrip for them."""
+    try:
+        t = operator_tables()
+    except Exception:  # noqa
+        ck.broken.append('operator tables could not be read from the source: ' + traceback.format_exc()[-400:])
+        return
+
+    def lst(name, pairs):
+        return (f'Definition {name} : list (string * string) := [\n  ' +
+                ';\n  '.join(f'({cs(a)}, {cs(b)})' for a, b in pairs) + '\n].\n')
+    text = ('From Coq Require Import List String Bool.\nFrom FpyV Require Import Backend.OpTables Backend.OpTablesProofs.\n'
+            'Import ListNotations.\nOpen Scope string_scope.\n')
+    for k, v in t.items():
+        text += lst(k, v)
+    kinds = ['unary', 'binary', 'ternary', 'nary', 'compare', 'const']
+    for k in kinds:
+        text += (f'Lemma back_{k}_ok : fwd_ok spec_{k} back_{k} = true.\nProof. vm_compute. reflexivity. Qed.\n'
+                 f'Lemma front_{k}_ok : bwd_ok spec_{k} front_{k} = true.\nProof. vm_compute. reflexivity. Qed.\n')
+    # coverage: every operator of the spec is handled (cast / range / dim are handled by code, not by the tables)
+    text += ('Lemma front_unary_covers : covers (filter (fun p => negb (String.eqb (fst p) "cast")) spec_unary) '
+             '(map fst front_unary) = true.\nProof. vm_compute. reflexivity. Qed.\n'
+             'Lemma back_unary_covers : covers (filter (fun p => negb (String.eqb (fst p) "Range1" || String.eqb (fst p) "Dim")) '
+             '(swap spec_unary)) (map fst back_unary) = true.\nProof. vm_compute. reflexivity. Qed.\n')
+    for k in kinds[1:]:
+        text += (f'Lemma front_{k}_covers : covers spec_{k} (map fst front_{k}) = true.\nProof. vm_compute. reflexivity. Qed.\n')
+        if k != 'const':
+            text += (f'Lemma back_{k}_covers : covers (swap spec_{k}) (map fst back_{k}) = true.\n'
+                     'Proof. vm_compute. reflexivity. Qed.\n')
+    for k in kinds[:-1]:
+        text += (f'Lemma {k}_roundtrip : forall cls nm cls\', In (cls, nm) back_{k} -> In (nm, cls\') front_{k} -> cls\' = cls.\n'
+                 f'Proof. apply (tables_roundtrip spec_{k}); [vm_compute; reflexivity|exact back_{k}_ok|exact front_{k}_ok]. Qed.\n')
+    ok, out = ck.dyn_theory('C12Tables', text=text)
+    n = sum(len(v) for v in t.values())
+    ck.evaluations += n
+    ck.count('operator-table entries', n)
+    if not ok:
+        # which entries break the obligation (diagnosis only; the spec is coq/Backend/OpTables.v)
+        spec = {}
+        raw = (ck.dir.parent.parent / 'coq' / 'Backend' / 'OpTables.v').read_text()
+        import re
+        for k in kinds:
+            body = re.search(r'Definition spec_%s[^\[]*\[(.*?)\]\.' % k, raw, re.S).group(1)
+            spec[k] = set(re.findall(r'\("([^"]*)", "([^"]*)"\)', body))
+        bad = {}
+        for k in kinds:
+            b = [(c, nm) for c, nm in t['back_' + k] if (nm, c) not in spec[k]]
+            f = [(nm, c) for nm, c in t['front_' + k] if (nm, c) not in spec[k]]
+            if b or f:
+                bad[k] = {'backend (node class, FPCore name)': b, 'frontend (FPCore name, node class)': f}
+        ck.violation('an operator table of the FPCore backend / frontend pairs an operator name with a node class of a '
+                     'different meaning, or no longer covers an operator (see C12Tables.log)',
+                     {'entries_not_in_spec': bad, 'log': out[-600:]}, no_input=not bad)
+
+
+# exact references for operators whose result is a small dyadic rational (independent of fpy2 and titanfp)
+def _fl(q):
+    return q.numerator // q.denominator
+
+
+def exact_reference(op, x, y):
+    """Exact result of `op` on binary64 arguments as ('num', str) / ('zero', neg), or None when not covered."""
+    import math
+    if any(math.isnan(v) or math.isinf(v) for v in (x, y)):
+        return None
+    qx, qy = Fraction(x), Fraction(y)
+    sx, sy = math.copysign(1.0, x) < 0, math.copysign(1.0, y) < 0
+
+    def val(q, zero_neg):
+        return ('zero', bool(zero_neg)) if q == 0 else ('num', str(q))
+    if op == 'floor':
+        return val(Fraction(_fl(qx)), sx)
+    if op == 'ceil':
+        return val(Fraction(-_fl(-qx)), sx)
+    if op == 'trunc':
+        return val(Fraction(_fl(abs(qx))) * (-1 if qx < 0 else 1), sx)
+    if op == 'roundint':         # C99 round: ties away from zero
+        return val(Fraction(_fl(abs(qx) + Fraction(1, 2))) * (-1 if qx < 0 else 1), sx)
+    if op == 'nearbyint':        # under round-to-nearest-even: ties to even
+        f = _fl(qx)
+        d = qx - f
+        n = f if d < Fraction(1, 2) else f + 1 if d > Fraction(1, 2) else (f if f % 2 == 0 else f + 1)
+        return val(Fraction(n), sx)
+    if op == 'abs':
+        return val(abs(qx), False)
+    if op == 'neg':
+        return val(-qx, not sx)
+    if op == 'copysign':
+        return val(abs(qx) * (-1 if sy else 1), sy)
+    if op == 'fdim':
+        return val(qx - qy, False) if qx > qy else ('zero', False)
+    if op == 'fmod' and qy != 0:
+        t = qx / qy
+        n = _fl(abs(t)) * (-1 if t < 0 else 1)
+        return val(qx - n * qy, sx)
+    if op == 'remainder' and qy != 0:
+        t = qx / qy
+        f = _fl(t)
+        d = t - f
+        n = f if d < Fraction(1, 2) else f + 1 if d > Fraction(1, 2) else (f if f % 2 == 0 else f + 1)
+        return val(qx - n * qy, sx)
+    return None
+
+
+CORPUS_UNARY = ['neg', 'abs', 'sqrt', 'cbrt', 'ceil', 'floor', 'nearbyint', 'roundint', 'trunc', 'acos', 'asin', 'atan',
+                'cos', 'sin', 'tan', 'acosh', 'asinh', 'atanh', 'cosh', 'sinh', 'tanh', 'exp', 'exp2', 'expm1', 'log',
+                'log10', 'log1p', 'log2', 'erf', 'erfc', 'lgamma', 'tgamma']
+CORPUS_BINARY = ['copysign', 'fdim', 'fmod', 'remainder', 'hypot', 'atan2', 'pow', 'min', 'max']
+CORPUS_PRED = ['isfinite', 'isinf', 'isnan', 'isnormal', 'signbit']
+# FPCore operator name for the hand-written cores of the reading direction
+FPCORE_NAME = {'neg': '-', 'abs': 'fabs', 'roundint': 'round'}
+# exact ties (even and odd floor), negatives, signed zeros, a non-dyadic value, specials
+CORPUS_VALUES = [0.5, 2.5, -2.5, 4.5, -0.5, 1.5, -1.5, 3.5, 0.0, -0.0, 3.0, -3.0, float.fromhex('0x1.99999ap-4'),
+                 7.25, -7.75, 100.0, 0.75, 1.0, float('inf'), float('-inf'), float('nan')]
+
+
+def titanfp_trusted(op, args):
+    """titanfp is the reference evaluator except where it is known to deviate from C99 / IEEE 754:
+    nearbyint (the repo's own test shim replaces it) and special values of copysign/fdim/hypot/pow/atan2."""
+    import math
+    if op == 'nearbyint':
+        return False
+    if op in ('copysign', 'fdim', 'hypot', 'pow', 'atan2', 'min', 'max', 'fmod', 'remainder'):
+        return all(math.isfinite(a) for a in args)
+    return True
+
+
+def corpus_source(kind, op):
+    name = f'c{kind}_{op}'
+    if kind == 'u':
+        call = '(-x)' if op == 'neg' else 'abs(x)' if op == 'abs' else f'fp.{op}(x)'
+        body = f'    return {call}\n'
+    elif kind == 'b':
+        call = f'{op}(x, y)' if op in ('min', 'max') else f'fp.{op}(x, y)'
+        body = f'    return {call}\n'
+    elif kind == 'p':
+        body = f'    r = y\n    if fp.{op}(x):\n        r = x + y\n    return r\n'
+    else:
+        body = '    return fp.fma(x, y, x)\n'
+    return name, f'import fpy2 as fp\n\n@fp.fpy(ctx=fp.FP64)\ndef {name}(x, y):\n{body}'
+
+
 def replay_one(ck):
     """--replay FILE: re-run the stored program (or core) on the stored arguments, three ways."""
     import json
@@ -788,7 +985,12 @@ def run(ck):
         'functional extensionality (environments are functions; used for the loop cases of to_fpcore_sound)',
         'exporters in harness/props/c12.py (fpy2 AST -> Coq func on the post-pass AST, titanfp AST -> Coq cprog, '
         'normalisation of the range-tensor detour of `for` to the model\'s CFor)',
-        'titanfp (reference FPCore evaluator) — only inside the behavioural comparison',
+        'titanfp (reference FPCore evaluator) — only inside the behavioural comparison; not used where it is known '
+        'to deviate from C99/IEEE (nearbyint, special values of copysign/fdim/hypot/pow/atan2, overflow under '
+        'directed rounding, empty tensors): there the exact rational reference / interpreter-vs-re-read decide',
+        'coq/Backend/OpTables.v spec_*: the pairing FPCore operator name <-> FPy node class of the same meaning '
+        '(hand-written from FPBench 2.0 / C99 names); the tables of backend/fpc.py and frontend/fpc.py are '
+        'regenerated per run (build/C12/C12Tables.v) and checked against it by vm_compute',
         'the normalisation passes ForBundling/WhileBundling/IfBundling/ForUnpack and DefineUse (mutated_in/introed_in) '
         'are not modelled: the model starts from the post-pass AST; they are covered by the behavioural comparison only',
     ]
@@ -804,6 +1006,7 @@ def run(ck):
     ok, _ = ck.build_static(['Props/C12.v', 'Cases/C12Cases.v'])
     if ok:
         ck.props('Props/C12.v')
+        tables_theory(ck)
 
     rng = Rng(ck.seed, 'c12')
     cases = []      # (kind, term, info)
@@ -1019,6 +1222,100 @@ def run(ck):
                                     dict(rep, interpreter=want, reread=got_re),
                                     'compile' if got_re == got_core else 'read', ci, ri, after, dup))
 
+    # ------------------------------------------------------------------ operator corpus (both directions)
+    # every real-valued / predicate operator of the tables, on operands that tell similar operators apart
+    # (exact ties with even and odd floor, negative values, signed zeros, specials)
+    import itertools
+    import math
+    corpus = ([('u', o) for o in CORPUS_UNARY] + [('b', o) for o in CORPUS_BINARY] +
+              [('p', o) for o in CORPUS_PRED] + [('t', 'fma')])
+    bvals = CORPUS_VALUES if thorough else CORPUS_VALUES[:7] + CORPUS_VALUES[8:12] + CORPUS_VALUES[18:]
+    for kind, op in corpus:
+        name, src = corpus_source(kind, op)
+        path = progdir / f'c12_{name}.py'
+        path.write_text(src)
+        info = {'name': name, 'source': src, 'stmt_after_with': False}
+        try:
+            f = getattr(load_module(f'c12_{name}', path), name)
+            core = comp.compile(f)
+            info['core'] = core.sexp
+            core2 = fpcparser.compile(core.sexp)[0]
+            reread = Function.from_fpcore(core2)
+        except Exception as e:  # noqa
+            ck.violation('an operator of the FPCore tables does not compile / read back',
+                         {'source': src, 'error': repr(e)[:300]})
+            continue
+        ci = None
+        try:
+            post = _apply_fpc_passes(f.ast)
+            fterm = AstExport(post, DefineUse.analyze(post)).func()
+            try:
+                cterm = CoreExport().core(core)
+            except Outside:
+                cterm = None
+            cases.append(('compile', f'(KCompile {fterm} {copt(cterm, str)})', info))
+            ci = len(cases) - 1
+            ck.count('structural: compile')
+            ck.nontriv(('compile', fterm))
+        except Outside:
+            pass
+        ri = read_case(core2, info)
+        # the same operator, written as a core by hand (reading direction alone)
+        hand = None
+        if kind in ('u', 'b') and op not in ('min', 'max'):
+            nm = FPCORE_NAME.get(op, op)
+            hsrc = (f'(FPCore (x y) :precision binary64 :round nearestEven ({nm} x))' if kind == 'u' else
+                    f'(FPCore (x y) :precision binary64 :round nearestEven ({nm} x y))')
+            try:
+                hcore = fpcparser.compile(hsrc)[0]
+                hri = read_case(hcore, {'core': hsrc})
+                hand = (hsrc, hcore, Function.from_fpcore(hcore), hri)
+            except Exception as e:  # noqa
+                ck.violation('reading a hand-written core with an operator of the tables failed',
+                             {'core': hsrc, 'error': repr(e)[:300]})
+        pairs = ([(x, 1.25) for x in CORPUS_VALUES] if kind in ('u', 'p') else list(itertools.product(bvals, bvals)))
+        for x, y in pairs:
+            args = [x, y]
+            rep = {'source': src, 'core': core.sexp, 'args': [a.hex() for a in args], 'stmt_after_with': False}
+            want = guarded(lambda: f(*args))
+            if want[0] == 'err':
+                ck.count('behavioural: the interpreter itself raised (no reference result)')
+                continue
+            got_re = guarded(lambda: reread(*args))
+            ref = exact_reference(op, x, y) if kind in ('u', 'b') else None
+            trusted = titanfp_trusted(op, args if kind != 'u' else [x])
+            got_core = guarded(lambda: Interpreter().interpret(core, [to_mpmf(a) for a in args])) if trusted else None
+            ck.evaluations += 1
+            ck.count('operator corpus: f(*args) vs re-read function' + (' vs titanfp' if trusted else '') +
+                     (' vs exact reference' if ref is not None else ''))
+            ck.nontriv(('op', name, x.hex(), y.hex()))
+            if ref is not None and want != ref:
+                ck.violation('the interpreter itself disagrees with the exact value of the operator (not a translation '
+                             'matter, but the corpus cannot arbitrate on this input)', dict(rep, interpreter=want, exact=ref))
+            if trusted and want != got_core:
+                pending.append(('fpy2 interpreter and titanfp on the compiled core disagree',
+                                dict(rep, interpreter=want, titanfp=got_core), 'compile', ci, ri, False, False))
+            if got_re != want:
+                culprit = 'compile' if (trusted and got_re == got_core) else 'read'
+                pending.append(('compiling and re-reading a function changed its behaviour',
+                                dict(rep, interpreter=want, reread=got_re, titanfp=got_core, exact=ref),
+                                culprit, ci, ri, False, False))
+            if hand is not None:
+                hsrc, hcore, hfun, hri = hand
+                a = guarded(lambda: hfun(*args))
+                ck.evaluations += 1
+                ck.count('operator corpus: function read from a hand-written core' +
+                         (' vs titanfp' if trusted else '') + (' vs exact reference' if ref is not None else ''))
+                hrep = {'core': hsrc, 'args': [v.hex() for v in args]}
+                if ref is not None and a != ref and a[0] != 'err':
+                    pending.append(('the function read from a core disagrees with the exact value of the operator',
+                                    dict(hrep, reread=a, exact=ref), 'read', None, hri, False, False))
+                elif trusted:
+                    b = guarded(lambda: Interpreter().interpret(hcore, [to_mpmf(v) for v in args]))
+                    if a != b:
+                        pending.append(('the function read from a core and titanfp on the core disagree',
+                                        dict(hrep, reread=a, titanfp=b), 'read', None, hri, False, False))
+
     # ------------------------------------------------------------------ hand-written cores for the reading direction
     READ_CORES = [
         '(FPCore (x y) :precision binary64 :round nearestEven (let ([a (+ x y)] [b (* x y)]) (let ([a b] [b a]) (- a b))))',
@@ -1053,7 +1350,10 @@ def run(ck):
     ck.rule = ('programs: random statement blocks over {assign, with (9 contexts, nested, with and without statements '
                'after them), if/else, if, while, for-range, tail with/return}, 2 arguments from 14 binary32 values; '
                'contexts: all IEEE/MPFixed/Fixed parameter combinations listed in the harness x rounding modes x overflow '
-               'modes, all property dictionaries over 21 precisions x 8 rounds x 5 overflows; non-trivial = distinct '
+               'modes, all property dictionaries over 21 precisions x 8 rounds x 5 overflows; operator corpus: every '
+               'unary / binary / predicate / fma operator of the FPCore tables (compiled from FPy and as a hand-written '
+               'core) on exact ties, negatives, signed zeros and specials, against exact rational references where the '
+               'result is dyadic; operator tables regenerated from the source; non-trivial = distinct '
                'program / context / dictionary / (program, arguments)')
     ck.exhaustive = False
     terms = [c[1] for c in cases]
